@@ -163,9 +163,13 @@ def agent_cell(cell):
                     _apply(used, e)
                 for _ in range(npol):
                     used.policy(0)
-                used.random_state = 77
-                twin = MABEpsilonGreedy(n_actions=n, alpha=cfg["alpha"], eps=cfg["eps"], initial_values=cfg["init"], random_state=77)
-                twin.Q, twin.actions_count = list(used.Q), list(used.actions_count)
+                try:
+                    used.random_state = 77
+                    twin = MABEpsilonGreedy(n_actions=n, alpha=cfg["alpha"], eps=cfg["eps"], initial_values=cfg["init"], random_state=77)
+                    twin.Q, twin.actions_count = list(used.Q), list(used.actions_count)
+                except AttributeError:
+                    res["stats"]["reseed_twin_not_constructible"] = 1   # estimates are not plain assignable attributes here: nothing to compare
+                    break
                 c1 = [used.policy(0) for _ in range(8)]
                 c2 = [twin.policy(0) for _ in range(8)]
                 res["evaluations"] += 1
